@@ -9,6 +9,7 @@ use crate::matrix::*;
 use crate::out::*;
 use crate::prep::*;
 use crate::sink::Sink;
+pub use crate::drive::Tier;
 use serde_json::{json, Value};
 use std::collections::HashMap;
 
@@ -393,7 +394,7 @@ pub fn battery(rng: &mut Rng, kind: Kind, bits: &Bits, dbg: bool) -> Vec<Step> {
 }
 
 /// run the same call on the subject and on the twin; returns the twin event and whether they agree
-fn twin_call(t: &Tier, st: &Step, nb: u8, s: &mut AnyBv, tw: &mut AnyBv) -> (Value, bool, Vec<AnyBv>) {
+pub fn twin_call(t: &Tier, st: &Step, nb: u8, s: &mut AnyBv, tw: &mut AnyBv) -> (Value, bool, Vec<AnyBv>) {
     let pre = observe(s);
     let (o, py, yd, results) = run_step(s, st);
     let post = observe(s);
@@ -777,7 +778,7 @@ pub fn drive_c19(t: &Tier, m: &mut Matrix, sink: &mut Sink) {
 // C20: all operator forms side by side
 // ------------------------------------------------------------------------------------------------
 
-fn forms_event(t: &Tier, op: &'static str, kx: Kind, xb: &Bits, y: &YSpec, ky: Option<Kind>, a: &Args, forms: &[&'static str]) -> (Value, String) {
+pub fn forms_event(t: &Tier, op: &'static str, kx: Kind, xb: &Bits, y: &YSpec, ky: Option<Kind>, a: &Args, forms: &[&'static str]) -> (Value, String) {
     let mut fs = Vec::new();
     let (yv0, yd) = Step { op, f: "", y: y.clone(), ykind: ky, a: a.clone() }.operand();
     let x0 = AnyBv::fresh(kx, xb);
